@@ -8,8 +8,32 @@ symbolic inputs, unwinding assertions on) | "bounded" (+ bound), tier = quick | 
 K = {}
 
 
-def k(name, fn, cls="proved", tier="quick", t=900, bound=None, note="", replay=None):
-    K[name] = dict(fn=fn, cls=cls, tier=tier, t=t, bound=bound, note=note, replay=replay)
+# harness module (kani/<m>.rs) -> modules it needs attached as well
+MODULE_DEPS = {
+    "path": [], "file": [], "cache": [],
+    "dedupe": ["path", "file"],
+    "reflink": ["dedupe", "path", "file"],
+    "hasher": ["dedupe", "path", "file", "cache"],
+    "transform": ["path"],
+    "config": [],
+    "semaphore": [],
+}
+
+
+def k(name, fn, cls="proved", tier="quick", t=900, bound=None, note="", replay=None, module=None, contract_ob=None):
+    if module is None:
+        module = "reflink" if "reflink" in name else "dedupe"
+    K[name] = dict(fn=fn, cls=cls, tier=tier, t=t, bound=bound, note=note, replay=replay, module=module,
+                   contract_ob=contract_ob)
+
+
+def modules_for(harnesses):
+    mods = set()
+    for h in harnesses:
+        m = K[h]["module"]
+        mods.add(m)
+        mods.update(MODULE_DEPS[m])
+    return sorted(mods)
 
 
 # ---- dedupe.rs / reflink.rs: ghost file system family (kani/dedupe.rs, kani/reflink.rs)
@@ -28,6 +52,18 @@ k("c18_execute_move_rename", "dedupe::FsCommand::execute [Move, use_rename] + mo
 k("c18_execute_move_copy", "dedupe::FsCommand::execute [Move, copy] + move_copy")
 k("c18_execute_move_rename_existing", "dedupe::FsCommand::execute [Move, use_rename, target exists]")
 k("c18_execute_move_copy_existing", "dedupe::FsCommand::execute [Move, copy, target exists]")
+
+# ---- config.rs (kani/config.rs + kani/contracts.toml)
+k("c06_rf_over_contract", "config::GroupConfig::rf_over [function contract]", module="config", t=300, contract_ob="C06.rf_over.contract")
+k("c06_rf_under_contract", "config::GroupConfig::rf_under [function contract]", module="config", t=300, contract_ob="C06.rf_under.contract")
+k("c06_group_filter", "config::GroupConfig::group_filter (against the contract of rf_over)", module="config", t=300)
+# ---- transform.rs
+k("c07_transform_frame", "transform::Transform::make_args + Input::prepare_input_file + Drop for Input/Output/Transform", module="transform", t=1500)
+# ---- hasher.rs
+for _o in ("ok", "notfound", "denied", "other"):
+    k("c15_hash_file_" + _o, "hasher::FileHasher::hash_file_or_log_err", module="hasher", t=300)
+    k("c15_hash_transformed_" + _o, "hasher::FileHasher::hash_transformed_or_log_err", module="hasher", t=300)
+k("c12_hasher_flow", "hasher::FileHasher::hash_file + load_hash + store_hash + cache::HashCache::key", module="hasher", t=900)
 
 C05_FAMILY = ["c05_safe_remove", "c05_execute_remove", "c05_execute_hardlink", "c05_execute_softlink",
               "c05_linux_reflink", "c05_execute_reflink"]
@@ -90,7 +126,7 @@ PROPS = {
         design_ref="DESIGN.md §5 C08",
     ),
     "C06": dict(
-        kani=[],
+        kani=["c06_rf_over_contract", "c06_rf_under_contract", "c06_group_filter"],
         verus=["filegroup_counts"],
         prefixes=["C06."],
         category="proof",
@@ -128,3 +164,22 @@ def units_for(prop, tier):
     p = PROPS[prop]
     ks = [h for h in p["kani"] if tier == "thorough" or K[h]["tier"] == "quick"]
     return ks, list(p["verus"])
+
+
+# Replays of a verifier counterexample on the REAL binary: (unit, obligation prefix, kind, argument)
+REAL_REPLAY = [
+    ("c20_lock_first_remove", "C20.lock_first.", "lock", "remove"),
+    ("c20_lock_first_hardlink", "C20.lock_first.", "lock", "hardlink"),
+    ("c20_lock_first_softlink", "C20.lock_first.", "lock", "softlink"),
+    ("c20_lock_first_reflink", "C20.lock_first.", "lock", "reflink"),
+    ("c20_lock_first_move", "C20.lock_first.", "lock", "move"),
+    ("c06_rf_over_contract", "C06.rf_over.contract", "transform_filter", None),
+    ("filegroup_counts", "C06.final_filter.group_transformed", "transform_filter", None),
+]
+
+
+def real_replay_for(unit, obligation):
+    for u, pre, kind, arg in REAL_REPLAY:
+        if u == unit and obligation.startswith(pre):
+            return kind, arg
+    return None
